@@ -3,7 +3,7 @@
 set -u
 P="$1"; TIER="$2"; shift 2
 cd /repo || exit 9
-git diff --quiet || { echo "repo dirty"; exit 9; }
+[ -z "$(git status --porcelain)" ] || { echo "repo dirty"; exit 9; }
 git apply "$P" || { echo "patch does not apply"; exit 9; }
 for id in "$@"; do
   s=$(date +%s)
@@ -13,4 +13,4 @@ for id in "$@"; do
   cp /tmp/evidence_keep_$id.json /verif/evidence/$id.json 2>/dev/null; rm -f /tmp/evidence_keep_$id.json
   echo "$id rc=$rc $(( $(date +%s)-s ))s"; grep -E "^VIOLATION|^  harness=|^ENGINE|^KNOWN" /tmp/patch_try_$id.log | head -6
 done
-cd /repo && git checkout -- .
+cd /repo && git checkout -- . && git clean -fdq
